@@ -64,7 +64,7 @@ class SObj(Model):
                 return self  # Zero.__neg__ returns self
             if eng.branch(self.tag == TAG_VAL):
                 return SObj(TAG_VAL, -self.nf)
-            raise PyRaise(SExc("TypeError", ("bad operand type for unary -",)))
+            raise PyRaise(SExc("TypeError", ("bad operand type for unary -",), tag="sentinel-arith"))
         raise Unsupported(f"unary {type(op).__name__} on element value")
 
     def m_binop(self, eng, op, other, reflected):
@@ -81,7 +81,7 @@ class SObj(Model):
                     if other == 0:
                         raise PyRaise(SExc("ZeroDivisionError", ()))
                     return SObj(TAG_VAL, self.nf.scale(Fraction(1, other)))
-                raise PyRaise(SExc("TypeError", ("unsupported operand type(s) for /",)))
+                raise PyRaise(SExc("TypeError", ("unsupported operand type(s) for /",), tag="sentinel-div"))
             raise Unsupported(f"element value / {other!r}")
         if isinstance(op, ast.Mult):
             if isinstance(other, (int, Fraction)) and not isinstance(other, bool):
@@ -583,7 +583,7 @@ def base_globals():
         "iter": Builtin("iter", _iter),
         "slice": TypeObj("slice"),
         "str": TypeObj("str"),
-        "dict": TypeObj("dict"),
+        "dict": TupleType("dict", lambda eng, *a, **kw: dict(*a, **kw)),
         "zero": ZERO,
         "one": ONE,
         "PENDING": PENDING,
